@@ -16,6 +16,8 @@ from . import tlc
 def _fp(h, x, np, pd, approx):
     """feed a fingerprint of x into hash h"""
     if isinstance(x, np.ndarray):
+        if x.dtype.byteorder not in ("=", "|") and not x.dtype.isnative:
+            x = x.astype(x.dtype.newbyteorder("="))          # the logical value: byte order is a matter of representation
         h.update(b"nd" + str(x.shape).encode() + str(x.dtype).encode())
         if approx and x.dtype.kind in "fc" and x.size:
             sc = float(np.nanmax(np.abs(x))) if np.isfinite(x).any() else 1.0
@@ -152,12 +154,21 @@ def purity_part(run, pid, calls):
                 if kind == "F" and x.ndim == 2 and min(x.shape) > 1:
                     changed[0] = True
                     return np.asfortranarray(x.copy())
+                if kind == "swapped":
+                    if x.dtype.kind in "fc" and x.dtype.itemsize >= 8:
+                        changed[0] = True
+                        return x.astype(x.dtype.newbyteorder())      # non-native byte order (data read from a big-endian file)
+                    return x.copy()
                 if kind == "strided":
                     big = np.full((2 * x.shape[0],) + x.shape[1:], 7 if x.dtype.kind in "iu" else np.nan, x.dtype)
                     big[::2] = x
                     changed[0] = True
                     return big[::2]
                 return x.copy()
+            if isinstance(x, dict):
+                return {k_: tr(v_) for k_, v_ in x.items()}
+            if isinstance(x, (list, tuple)) and any(isinstance(v_, (np.ndarray, dict, list, tuple)) for v_ in x):
+                return type(x)(tr(v_) for v_ in x)
             return copy.deepcopy(x)
         a2 = [tr(x) for x in args]
         k2 = {k_: tr(v) for k_, v in kwargs.items()}
@@ -168,7 +179,7 @@ def purity_part(run, pid, calls):
         name, fn, args, kwargs, approx = built[k]
         if name in raised:
             continue
-        for kind in ("F", "strided"):
+        for kind in ("F", "strided", "swapped"):
             try:
                 v = variant(args, kwargs, kind)
             except Exception:
@@ -185,7 +196,8 @@ def purity_part(run, pid, calls):
                 rfa = "raised:" + type(ex).__name__
             aout = fingerprint([a2, k2], np, pd)
             trace.append({"fn": len(built) + k + 1, "ain": num(ain), "aout": num(aout), "res": num(name + "~" + rfa)})
-            meta.append(name + (" [arguments as column-major copies]" if kind == "F" else " [arguments as non-contiguous views]"))
+            meta.append(name + {"F": " [arguments as column-major copies]", "strided": " [arguments as non-contiguous views]",
+                                "swapped": " [arguments with non-native byte order]"}[kind])
             nvar += 1
     run.extra["purity_representation_variants"] = nvar
     fd, path = tempfile.mkstemp(suffix=".ndjson", prefix="purity_")
@@ -204,7 +216,9 @@ def purity_part(run, pid, calls):
     ntr, bad = out[0]
     for ln in sorted(bad)[:6]:
         e = trace[ln - 1]
-        what = "modified one of its arguments" if e["aout"] != e["ain"] else "returned a different result for the same arguments (hidden state)"
+        what = "modified one of its arguments" if e["aout"] != e["ain"] else (
+            "returned a different result for the same logical arguments given in another memory representation" if "[arguments" in meta[ln - 1]
+            else "returned a different result for the same arguments (hidden state)")
         run.violation("purity: call %d of the recorded trace, %s, %s" % (ln, meta[ln - 1], what), {"line": ln, "event": e, "function": meta[ln - 1]},
                       {"part": "purity", "function": meta[ln - 1]})
     for nm_, ex_ in sorted(raised.items()):
